@@ -226,6 +226,21 @@ CLAIMED["C15"] = (
     "DESIGN.md section 6, C15",
 )
 
+CLAIMED["C10"] = (
+    "Coq theorems (labels as Coq strings): the label_to_tags cascade in precedence order (empty label, function, term mapping, "
+    "explicit term, tag mapping, key mapping, explicit key, fallback; the label is the value) and the label_from_tags cascade "
+    "(sequence function, empty, select by key, index modulo length always in range, join); imports scale times by 1/te and "
+    "frequencies by te exactly once (sample indices: index/(sr/te)/te == index/sr); exports span the bounds, set sample indices "
+    "to floor(time*sr), cap the high frequency at Nyquist, reject what crowsetta rejects; sequences keep order and skip or "
+    "raise on unconvertible events; export after import reproduces onset/offset/frequency bounds. Correspondence over the "
+    "option combinations, all geometry types, time expansions 1, 2, 10, 1/2.",
+    "Trusted: Coq kernel/vm_compute; crowsetta 4.0.0.post2 constructors/validators as read from its source; where the "
+    "documented cascade is ambiguous (a term set explicitly or via term_mapping suppresses tag_mapping) the model follows the "
+    "code and the oracle does not judge; division by te=10 compared to 1e-12.",
+    "Rocq/Coq proof + model/implementation correspondence by vm_compute",
+    "DESIGN.md section 6, C10",
+)
+
 NOT_YET = {}
 
 
